@@ -30,9 +30,10 @@ def rules(ctx):
     tb = T.norm(T.FuncLower(P, P.func("puan.logic.plog.AtLeast.to_b64")).term())
     dumps = [x for x in T.walk(tb) if x[0] == 'call' and x[1] == T.G('pickle.dumps')]
     ok = bool(dumps) and all(d[2] and d[2][0] == T.V('self') for d in dumps)
-    obs.append(Ob("E3.dumps-self", "E3.dataflow", ctx.loc("puan.logic.plog.AtLeast.to_b64"), "ok" if ok else "violation",
-                  "pickle.dumps receives self" if ok else f"pickle.dumps receives {[T.show(d[2][0])[:80] for d in dumps if d[2]]} (class / flags of the object are lost)",
-                  key="E3.dumps-self"))
+    obs += ctx.settle_roles("C17", "puan.logic.plog.AtLeast.to_b64", [
+        Ob("E3.dumps-self", "E3.dataflow", ctx.loc("puan.logic.plog.AtLeast.to_b64"), "ok" if ok else "violation",
+           "pickle.dumps receives self" if ok else f"pickle.dumps receives {[T.show(d[2][0])[:80] for d in dumps if d[2]]} (class / flags of the object are lost)",
+           key="E3.dumps-self")], [])
     # 2. no custom pickling hooks on model / polyhedron classes
     hooks = []
     for c in P.classes.values():
@@ -108,9 +109,10 @@ def rules(ctx):
     # from_b64 splats positionally into the class
     t = T.norm(T.FuncLower(P, P.func(CFG + ".from_b64")).term())
     ok = any(x[0] == 'call' and x[1] == T.G(CFG) and any(a[0] == 'star' for a in x[2]) for x in T.walk(t))
-    obs.append(Ob("E3.b64-splat", "E3.positional", ctx.loc(CFG + ".from_b64"), "ok" if ok else "violation",
-                  "from_b64 = ge_polyhedron_config(*loaded list)" if ok else "from_b64 does not splat the loaded list into ge_polyhedron_config",
-                  key="E3.b64-splat"))
+    obs += ctx.settle_roles("C17", CFG + ".from_b64", [
+        Ob("E3.b64-splat", "E3.positional", ctx.loc(CFG + ".from_b64"), "ok" if ok else "violation",
+           "from_b64 = ge_polyhedron_config(*loaded list)" if ok else "from_b64 does not splat the loaded list into ge_polyhedron_config",
+           key="E3.b64-splat")], [])
     # 4. coverage: attributes attached by the __new__ chain are in the list
     attached = set()
     cls = P.cls(CFG)
@@ -118,8 +120,9 @@ def rules(ctx):
         f = c.methods.get("__new__")
         if f is None:
             continue
+        returned = {r.value.id for r in ast.walk(f.node) if isinstance(r, ast.Return) and isinstance(r.value, ast.Name)}
         for n in ast.walk(f.node):
-            if isinstance(n, ast.Attribute) and isinstance(n.ctx, ast.Store) and isinstance(n.value, ast.Name) and n.value.id == "arr":
+            if isinstance(n, ast.Attribute) and isinstance(n.ctx, ast.Store) and isinstance(n.value, ast.Name) and n.value.id in returned:
                 attached.add(n.attr)
     listed = {e[2] for e in (lists[0][1] if lists and lists[0][0] == 'list' else ()) if e[0] == 'attr' and e[1] == T.V('self')}
     for a in sorted(attached):
